@@ -542,8 +542,11 @@ def _execute_power(plan, ctx, base):
                                                                out=out)
                     else:
                         res = getattr(ins[0].ufuncs, op['uf'])(*ins[1:])
-                elif op.get('out'):
-                    # NumPy call with a product-space element as out
+                elif op.get('out') and op['fill'] == 'nan' and \
+                        op is plan['ops'][-1]:
+                    # NumPy call with a product-space element as out (a
+                    # recorded finding: only tried as the last operation of
+                    # a run, so that it does not cut histories short)
                     out = P.element()
                     for a in elem_arrays(out):
                         fill_garbage(a, op['fill'], 1)
